@@ -45,6 +45,7 @@ type c15Drain struct {
 type c15Env struct {
 	Feeds      []c15Feed  `json:"feeds,omitempty"`
 	Drains     []c15Drain `json:"drains,omitempty"`
+	Gifts      []c15Drain `json:"gifts,omitempty"` // liquidity world: plain transfers INTO a pair's swap-fee collector ("feecollector <i>")
 	DropParams []string   `json:"drop_params,omitempty"`
 	VaultCount int64      `json:"vault_counter_delta,omitempty"`
 	Dt         []int64    `json:"dt"`
@@ -203,6 +204,34 @@ func (m *lMachine) c15InstallEnv(env c15Env) {
 	}
 }
 
+// c15InstallGifts: anybody can send coins to a pair's swap-fee collector address; every 150th block the
+// liquidity hook tries to convert whatever that account holds into the fee-distribution token.
+func (m *lMachine) c15InstallGifts(env c15Env) {
+	c := m.c
+	for _, g := range env.Gifts {
+		var kind string
+		var idx int
+		fmt.Sscanf(g.Account, "%s %d", &kind, &idx)
+		for _, a := range m.cs.Cfg.Apps {
+			pairs := m.k.GetAllPairs(c.Ctx, a.ID)
+			if len(pairs) == 0 {
+				continue
+			}
+			p := pairs[idx%len(pairs)]
+			denom := p.BaseCoinDenom
+			if g.Asset%2 == 1 {
+				denom = p.QuoteCoinDenom
+			}
+			from := c.Accs[0].Addr
+			if bal := c.App.BankKeeper.GetBalance(c.Ctx, from, denom); bal.Amount.GTE(sdk.NewInt(1000000)) {
+				if err := c.App.BankKeeper.SendCoins(c.Ctx, from, p.GetSwapFeeCollectorAddress(), sdk.NewCoins(sdk.NewInt64Coin(denom, 1000000))); err != nil {
+					panic(err)
+				}
+			}
+		}
+	}
+}
+
 func c15EnvRun(t rec.TB, r *rec.Rec, cs *c15EnvCase, c *world.Chain, install func(), after func(block int)) {
 	// the hooks of several consecutive blocks on one branch: EndBlocker(H), BeginBlocker(H+1), EndBlocker(H+1) ...
 	save := c.Ctx
@@ -239,6 +268,8 @@ func c15EnvRun(t rec.TB, r *rec.Rec, cs *c15EnvCase, c *world.Chain, install fun
 				what = "missing-parameters"
 			case len(cs.Env.Drains) > 0:
 				what = "drained-accounts"
+			case len(cs.Env.Gifts) > 0:
+				what = "coins-sent-to-fee-collector"
 			}
 			r.Fail(t, "C15.block-hooks-panic-under-environment-fault", what, cs, "block %d after the fault: panic escaped the hooks: %.300v (environment %+v)", i+1, escaped, cs.Env)
 			return
@@ -282,9 +313,19 @@ func c15GenEnv(rt *rapid.T, nassets int, vault bool, nlockers int) c15Env {
 			env.VaultCount = rapid.SampledFrom([]int64{-3, -1, 1, 2, 7}).Draw(rt, "countdelta")
 		}
 	} else {
-		n := rapid.IntRange(1, 3).Draw(rt, "ndrain")
-		for i := 0; i < n; i++ {
-			env.Drains = append(env.Drains, c15Drain{fmt.Sprintf("%s %d", rapid.SampledFrom([]string{"pool", "escrow", "feecollector"}).Draw(rt, "kind"), rapid.IntRange(0, 5).Draw(rt, "idx")), rapid.IntRange(0, 1).Draw(rt, "side")})
+		if pick <= 4 {
+			// coins sent to swap-fee collectors, and the hooks run at a height where the conversion is attempted
+			env.Align150 = true
+			n := rapid.IntRange(1, 3).Draw(rt, "ngift")
+			for i := 0; i < n; i++ {
+				env.Gifts = append(env.Gifts, c15Drain{fmt.Sprintf("feecollector %d", rapid.IntRange(0, 5).Draw(rt, "idx")), rapid.IntRange(0, 1).Draw(rt, "side")})
+			}
+		}
+		if pick >= 3 {
+			n := rapid.IntRange(1, 3).Draw(rt, "ndrain")
+			for i := 0; i < n; i++ {
+				env.Drains = append(env.Drains, c15Drain{fmt.Sprintf("%s %d", rapid.SampledFrom([]string{"pool", "escrow", "feecollector"}).Draw(rt, "kind"), rapid.IntRange(0, 5).Draw(rt, "idx")), rapid.IntRange(0, 1).Draw(rt, "side")})
+			}
 		}
 	}
 	return env
@@ -311,6 +352,10 @@ func TestC15_env(t *testing.T) {
 				c15EnvRun(rt, r, cs, m.c, func() { m.c15InstallEnv(cs.Env) }, m.c15AfterHooks(r, cs))
 			} else {
 				lc := &lCase{Cfg: genLCfg(rt)}
+				for i := range lc.Cfg.Apps {
+					// a fee-distribution token among the traded ones: the conversion of collected swap fees (every 150th block) has work to do
+					lc.Cfg.Apps[i].DistrDenom = rapid.SampledFrom([]string{"", "uaaa", "ubbb", "uccc"}).Draw(rt, fmt.Sprintf("distrdenom%d", i))
+				}
 				cs.L = lc
 				m := newLMachine(rt, r, "C15", lc)
 				n := rapid.IntRange(10, 45).Draw(rt, "nops")
@@ -320,7 +365,7 @@ func TestC15_env(t *testing.T) {
 					m.apply(i, op)
 				}
 				cs.Env = c15GenEnv(rt, 2, false, 0)
-				c15EnvRun(rt, r, cs, m.c, func() { m.c15InstallEnv(cs.Env) }, nil)
+				c15EnvRun(rt, r, cs, m.c, func() { m.c15InstallEnv(cs.Env); m.c15InstallGifts(cs.Env) }, nil)
 			}
 		})
 	})
@@ -344,7 +389,7 @@ func init() {
 			for i, op := range cs.L.Ops {
 				m.apply(i, op)
 			}
-			c15EnvRun(t, r, &cs, m.c, func() { m.c15InstallEnv(cs.Env) }, nil)
+			c15EnvRun(t, r, &cs, m.c, func() { m.c15InstallEnv(cs.Env); m.c15InstallGifts(cs.Env) }, nil)
 		}
 	}
 }
